@@ -381,8 +381,9 @@ class BaseModel(Generic[MvalT_co], metaclass=ModelsMeta):
 
     def finish(self) -> Self:
         self._check_not_finished()
-        self._complete_frames()
+        # Enforce access first, since it may introduce a new world.
         self.R.enforce()
+        self._complete_frames()
         self._finished = True
         return self
 
